@@ -50,7 +50,7 @@ fn unsafe_static<'a>(s: &'a [u8]) -> &'a [u8] {
 
 const CAND_ALPHABET: &[u8] = b"ABCDEFGHIJKLMNOPQRSTUVWXYZabcdefghijklmnopqrstuvwxyz0123456789_";
 
-fn candidates(rng: &mut Rng, def: &[u8], out: &mut Vec<Vec<u8>>) {
+pub fn candidates(rng: &mut Rng, def: &[u8], out: &mut Vec<Vec<u8>>) {
     let (head, suf) = split_suffix(def);
     let sl = short_len(head);
     let short = &head[..sl];
